@@ -30,6 +30,7 @@ type Model struct {
 	ColLive []bool
 
 	sorted      []uint32 // cache: sorted live offsets
+	keyIdx      map[string][]uint32
 	sortedValid bool
 }
 
@@ -62,35 +63,36 @@ func (m *Model) Live() []uint32 {
 	return m.sorted
 }
 
-func (m *Model) dirty() { m.sortedValid = false }
+func (m *Model) dirty() { m.sortedValid = false; m.keyIdx = nil }
 
 func (m *Model) Count() int { return len(m.Rows) }
 
+// keyIndex returns key -> owners (ascending offsets), rebuilt lazily.
+func (m *Model) keyIndex() map[string][]uint32 {
+	if m.keyIdx == nil {
+		m.keyIdx = map[string][]uint32{}
+		if m.Sch.Key >= 0 {
+			for _, off := range m.Live() {
+				if c := m.Rows[off][m.Sch.Key]; c.Has {
+					m.keyIdx[c.V.S] = append(m.keyIdx[c.V.S], off)
+				}
+			}
+		}
+	}
+	return m.keyIdx
+}
+
 // KeyOf returns the offset of the live row holding key k.
 func (m *Model) KeyOf(k string) (uint32, bool) {
-	if m.Sch.Key < 0 {
-		return 0, false
-	}
-	// linear scan over live rows in offset order: models are small in keyed histories
-	for _, off := range m.Live() {
-		c := m.Rows[off][m.Sch.Key]
-		if c.Has && c.V.S == k {
-			return off, true
-		}
+	if owners := m.keyIndex()[k]; len(owners) > 0 {
+		return owners[0], true
 	}
 	return 0, false
 }
 
 // KeyOwners returns all live rows holding key k (more than one = duplicate key).
 func (m *Model) KeyOwners(k string) []uint32 {
-	var out []uint32
-	for _, off := range m.Live() {
-		c := m.Rows[off][m.Sch.Key]
-		if c.Has && c.V.S == k {
-			out = append(out, off)
-		}
-	}
-	return out
+	return m.keyIndex()[k]
 }
 
 // ---------------------------------------------------------------------------
